@@ -164,6 +164,17 @@ mut('c13-late-joiner-one-short', 'C13', 'src/sub.rs', "        for message in su
 mut('c13-subscribe-skips-announce', 'C13', 'src/sub.rs', "        self.process_subs(subscription, SubBackendMsgType::SUBSCRIBE)\n            .await\n", "        let _ = subscription;\n        Ok(())\n", note='subscribe only updates the set: registered peers are never told')
 mut('c13-send-feed-only', 'C13', 'src/sub.rs', "                .send(Message::Message(message.clone()))\n                .await;", "                .feed(Message::Message(message.clone()))\n                .await;", note='announcement buffered but never flushed')
 mut('h-c13-rename-result', 'C13', 'src/sub.rs', "sent", "outcome", expect='no-alarm', note='HARMLESS rename')
+# ---------------------------------------------------------------- C05 exactly once, whole, in order (sequential scope)
+mut('c05-fq-pending-dropped', 'C05', 'src/fair_queue.rs', "                Poll::Pending => {\n                    let mut inner = fair_queue.inner.lock();\n                    inner.streams.insert(event.key, io_stream);\n                    continue;", "                Poll::Pending => {\n                    continue;", note='a stream that is merely not ready is dropped: every later message of that peer is lost')
+mut('c05-fq-item-not-put-back', 'C05', 'src/fair_queue.rs', "                    inner.streams.insert(event.key, io_stream);\n                    return Poll::Ready(item);", "                    return Poll::Ready(item);", note='the stream that yielded an item is not put back')
+mut('c05-fq-item-dropped', 'C05', 'src/fair_queue.rs', "                Poll::Ready(Some(res)) => {\n                    let item = Some((event.key.clone(), res));", "                Poll::Ready(Some(res)) if fair_queue.block_on_no_clients => {\n                    let item = Some((event.key.clone(), res));", expect='any-nonzero', note='an item read from a stream is thrown away for non-blocking queues (match no longer exhaustive for Verus or post fails)')
+mut('c05-fq-remove-other', 'C05', 'src/fair_queue.rs', "        self.streams.remove(k);", "        self.streams.remove(k);\n        self.ready_queue.pop();", note='removing one peer also discards another peer\'s pending wake-up')
+mut('c05-pull-drops-first', 'C05', 'src/pull.rs', "                Some((_peer_id, Ok(Message::Message(message)))) => {\n                    return Ok(message);", "                Some((_peer_id, Ok(Message::Message(message)))) => {\n                    if message.is_empty() { continue; }\n                    return Ok(message);", expect='any-nonzero', note='PULL silently discards some message items')
+mut('c05-dealer-swallows-after-command', 'C05', 'src/dealer.rs', "                Some((_peer_id, Ok(_))) => {", "                Some((_peer_id, Ok(_))) => {\n                    let _ = self.fair_queue.next().await;", note='DEALER consumes one more item after a command and throws it away')
+mut('c05-router-drops-frame', 'C05', 'src/router.rs', "                    message.push_front(peer_id.into());\n                    return Ok(message);", "                    let _ = message.pop_front();\n                    message.push_front(peer_id.into());\n                    return Ok(message);", note='ROUTER replaces the first frame by the identity: message not whole')
+mut('c05-decode-merges', 'C05', 'src/codec/zmq_codec.rs', "                        Some(v) => v.push_back(data.freeze()),", "                        Some(v) => *v = ZmqMessage::from(data.freeze()),", note='earlier frames of a multipart message are dropped (split message)')
+mut('h-c05-fq-rename', 'C05', 'src/fair_queue.rs', 'io_stream', 'checked_out', expect='no-alarm', note='HARMLESS rename')
+mut('h-c05-pull-rename', 'C05', 'src/pull.rs', "Some((_peer_id, Ok(Message::Message(message)))) => {\n                    return Ok(message);", "Some((_from, Ok(Message::Message(whole)))) => {\n                    return Ok(whole);", expect='no-alarm', note='HARMLESS rename')
 mut('c16-dealer-not-forgotten', 'C16', 'src/dealer.rs', "                    self.backend.peer_disconnected(&peer_id);\n", "", note='F9 returns: DEALER reports a failed peer without forgetting it')
 mut('c16-rep-read-half-kept', 'C16', 'src/rep.rs', "        self.fair_queue_inner.lock().remove(peer_id);\n", "", note='F10 returns: REP leaves the read half queued')
 mut('c16-sub-read-half-kept', 'C16', 'src/sub.rs', "        if let Some(inner) = &self.fair_queue_inner {\n            inner.lock().remove(peer_id);\n        }\n", "", note='F11 returns: SUB leaves the read half queued')
